@@ -206,6 +206,45 @@ def behaviours_to_script(behs):
     return script, case
 
 
+def _tla_json_val(x):
+    """value as serialized by the Json module ([t, v] / [t, m: object or [] when empty]) -> tagged encoding"""
+    if x["t"] == "l":
+        return {"t": "l", "v": x["v"]}
+    m = x["m"] if isinstance(x["m"], dict) else {}
+    return {"t": "m", "m": [{"k": k, "v": _tla_json_val(m[k])} for k in sorted(m)]}
+
+
+def table_script(ctx):
+    """Directed T->I table: every curated view of RegistryViewMC x every request of the full menus, one short
+    case each (Begin ; request ; Get of the same request after a Set).  Views and menus are exported by TLC
+    itself (RegistryViewTable.tla), so the spec stays the single source."""
+    d = ctx.subdir("table")
+    out = os.path.join(d, "table.json")
+    res = tlc.run(ctx, "RegistryViewTable", "RegistryViewTable.cfg", workers=1, env={"VERIF_OUT": out}, timeout=600,
+                  name="table_export")
+    if not res.ok or not os.path.exists(out):
+        raise InfraError("export of the view/request table failed: %s" % res.summary())
+    with open(out) as f:
+        t = json.load(f)
+    script = []
+    case = 0
+    for v in t["views"]:
+        view = [_def_to_json(dd) for dd in v]
+        reqs = ([("Set", list(e[0]), _tla_json_val(e[1])) for e in t["sets"]] +
+                [("Unset", list(r), None) for r in t["unsets"]] + [("Get", list(r), None) for r in t["gets"]])
+        for ev, req, val in reqs:
+            case += 1
+            script.append({"ev": "Reset", "case": case, "view": view})
+            script.append({"ev": "Begin", "t": 1, "case": case})
+            o = {"ev": ev, "t": 1, "req": req, "case": case}
+            if val is not None:
+                o["val"] = val
+            script.append(o)
+            if ev == "Set":
+                script.append({"ev": "Get", "t": 1, "req": req, "case": case})
+    return script, case
+
+
 # ---------------------------------------------------------------------------------------------
 # state level (overlord/registrystate)
 
@@ -216,7 +255,7 @@ def run_state_level(ctx, violations):
     d = ctx.subdir("statelevel")
     out = os.path.join(d, "state.ndjson")
     rc, o = goharness.run_test_bin(ctx, tb, "TestVerifRegistryState", cwd=os.path.join(common.REPO, "overlord/registrystate"),
-                                   env={"VERIF_OUT": out, "VERIF_N": ctx.pick(40, 600), "VERIF_LEN": 10}, timeout=1200)
+                                   env={"VERIF_OUT": out, "VERIF_N": ctx.pick(30, 600), "VERIF_LEN": 10}, timeout=1200)
     goharness.check_driver(rc, o, "registrystate overlay driver")
     rows = common.read_ndjson(out)
     cases = split_cases(rows)
@@ -315,7 +354,7 @@ def run(ctx):
             transitions += m2.generated
             ctx.log("design %s: %s wall=%.0fs" % (cfg, m2.summary(), m2.wall))
 
-    nsim = ctx.pick(40, 300)
+    nsim = ctx.pick(25, 300)
     sim = tlc.run(ctx, "RegistryViewMC2", "RegistryView_sim.cfg", simulate={"num": nsim, "file": True}, depth=22,
                   seed=ctx.seed, workers=1, timeout=ctx.pick(600, 2400), name="sim")
     if not sim.ok:
@@ -329,16 +368,28 @@ def run(ctx):
     # ---- 2. conformance --------------------------------------------------------------------
     d = ctx.subdir("traces")
     out_r = os.path.join(d, "random.ndjson")
-    run_driver(ctx, tb, out_r, {"VERIF_N": ctx.pick(100, 1200), "VERIF_LEN": ctx.pick(20, 24)})
+    run_driver(ctx, tb, out_r, {"VERIF_N": ctx.pick(60, 1200), "VERIF_LEN": ctx.pick(20, 24)})
     sp = os.path.join(d, "tlc_script.ndjson")
     common.write_ndjson(sp, script)
     out_s = os.path.join(d, "replayed.ndjson")
     run_driver(ctx, tb, out_s, {"VERIF_SCRIPT": sp})
-    with concurrent.futures.ThreadPoolExecutor(max_workers=2) as ex:
-        fr = ex.submit(validate_chunks, ctx, out_r, ctx.pick(2, 12), ctx.pick(2, 12), "random")
+    # directed table: every curated view x every menu request
+    tscript, ntable = table_script(ctx)
+    tp = os.path.join(d, "table_script.ndjson")
+    common.write_ndjson(tp, tscript)
+    out_t = os.path.join(d, "table.ndjson")
+    run_driver(ctx, tb, out_t, {"VERIF_SCRIPT": tp})
+    with concurrent.futures.ThreadPoolExecutor(max_workers=3) as ex:
+        fr = ex.submit(validate_chunks, ctx, out_r, ctx.pick(1, 12), ctx.pick(1, 12), "random")
         fs = ex.submit(validate_chunks, ctx, out_s, ctx.pick(1, 4), ctx.pick(1, 4), "tlc")
+        ft = ex.submit(validate_chunks, ctx, out_t, ctx.pick(2, 4), ctx.pick(2, 4), "table")
         rows_r, cases_r, rej_r, acc_r = fr.result()
         rows_s, cases_s, rej_s, acc_s = fs.result()
+        rows_t, cases_t, rej_t, acc_t = ft.result()
+    for chunk, tv in rej_t:
+        confirm_and_report(ctx, tb, chunk, tv, violations, "view x request table")
+    ctx.log("table: %d cases (every curated view x every menu request), %d lines, %d accepted" % (
+        len(cases_t), len(rows_t), acc_t))
     for chunk, tv in rej_r:
         confirm_and_report(ctx, tb, chunk, tv, violations, "seeded random view and history, seed %d" % ctx.seed)
     for chunk, tv in rej_s:
@@ -351,7 +402,7 @@ def run(ctx):
     hang_key = ("registry View.Set never returns: checkForUnusedBranches loops forever when an unused branch of the "
                 "value holds an empty map")
     nhangs = 0
-    for c in cases_r + cases_s:
+    for c in cases_r + cases_s + cases_t:
         if c[-1]["ev"] != "Hang":
             continue
         nhangs += 1
@@ -384,7 +435,7 @@ def run(ctx):
     ctx.log("state level: %d cases, %d lines" % (ncases_st, len(rows_st)))
 
     # ---- vacuity on the real side ----------------------------------------------------------
-    allrows = rows_r + rows_s
+    allrows = rows_r + rows_s + rows_t
     cls = {}
     abstract = set()
     views = set()
@@ -414,9 +465,10 @@ def run(ctx):
     samples = [" ; ".join(op_str(e) for e in c[:10]) for c in (cases_r[:2] + cases_s[:2])]
     cov = {
         "states": states, "transitions": transitions,
-        "traces_validated_against_impl": len(cases_r) + len(cases_s) + ncases_st,
-        "real_requests": len(allrows) - len(cases_r) - len(cases_s),
-        "real_lines_accepted": acc_r + acc_s,
+        "traces_validated_against_impl": len(cases_r) + len(cases_s) + len(cases_t) + ncases_st,
+        "real_requests": len(allrows) - len(cases_r) - len(cases_s) - len(cases_t),
+        "real_lines_accepted": acc_r + acc_s + acc_t,
+        "view_request_table_cases": len(cases_t),
         "random_histories": len(cases_r), "tlc_behaviours_replayed": len(cases_s),
         "state_level_cases": ncases_st, "state_level_calls": dict(sorted(cls_st.items())),
         "distinct_views_on_real_code": len(views),
